@@ -8,24 +8,23 @@ open C16Gen List
 /-! ## provenance of jobs and fires -/
 
 theorem schedule_live_sub (s : Cron) (j : Job) (b : Bool) {x : Job}
-    (hx : x ∈ (schedule s j b).1.tl ++ (schedule s j b).1.inflight) :
-    x ∈ s.tl ++ s.inflight ∨ x = schedJob s.clock j := by
-  obtain ⟨e1, _⟩ := schedule_fst_fields s j b
-  rw [e1] at hx
+    (hx : x ∈ (schedule s j b).1.tl ++ (schedule s j b).1.running) :
+    x ∈ s.tl ++ s.running ∨ x = schedJob s.clock j := by
+  rw [schedule_running] at hx
   rcases mem_append.1 hx with hx | hx
   · rcases schedule_tl s j b with e | e <;> rw [e] at hx
     · left; exact mem_append.2 (Or.inl ((remJob_sublist _ _).subset hx))
     · rcases mem_insertJob.1 hx with rfl | hx
       · right; rfl
       · left; exact mem_append.2 (Or.inl ((remJob_sublist _ _).subset hx))
-  · left; exact mem_append.2 (Or.inr hx)
+  · left; exact mem_append.2 (Or.inr ((cancelRunning_sublist _ _).subset hx))
 
-/-- every job that is pending or in flight after a step was so before, or was created by this `add`, or is the
-re-scheduled recurring job whose `Fn` just returned -/
-theorem step_live_sub (s : Cron) (op : Op) {x : Job} (hx : x ∈ (step s op).tl ++ (step s op).inflight) :
-    x ∈ s.tl ++ s.inflight ∨
+/-- every job that is pending, or running and due to be re-scheduled, after a step was so before, or was created by this
+`add`, or is the re-scheduled recurring job whose `Fn` just returned (and which was still in `c.running`) -/
+theorem step_live_sub {s : Cron} (hw : WF s) (op : Op) {x : Job} (hx : x ∈ (step s op).tl ++ (step s op).running) :
+    x ∈ s.tl ++ s.running ∨
     (∃ id due p, op = .add id due p ∧ x = schedJob s.clock ⟨id, due, p, s.serial⟩) ∨
-    (∃ k j, op = .done k ∧ j ∈ s.inflight ∧ j.serial = k ∧ j.period ≠ 0 ∧ x = schedJob s.clock j) := by
+    (∃ k j, op = .done k ∧ j ∈ s.running ∧ j.serial = k ∧ j.period ≠ 0 ∧ x = schedJob s.clock j) := by
   cases op with
   | advance d => left; exact hx
   | add id due p =>
@@ -37,35 +36,40 @@ theorem step_live_sub (s : Cron) (op : Op) {x : Job} (hx : x ∈ (step s op).tl 
     left; simp only [step] at hx
     rcases mem_append.1 hx with h | h
     · exact mem_append.2 (Or.inl ((remJob_sublist _ _).subset h))
-    · exact mem_append.2 (Or.inr h)
+    · exact mem_append.2 (Or.inr ((cancelRunning_sublist _ _).subset h))
   | tick =>
     left
-    obtain ⟨e1, e2, _⟩ := tickArm_fields s
+    obtain ⟨i1, _, _, _, _, _, _, _, i9⟩ := tickIdle_fields s
     simp only [step] at hx
     rcases tick_cases s with ⟨e, _⟩ | ⟨e, _, _⟩ | ⟨j, rest, _, htl, _, e⟩
     · rw [e] at hx; exact hx
-    · rw [e, e1, e2] at hx; exact hx
+    · rw [e, i1, i9] at hx; exact hx
     · rw [e] at hx
-      have hx' : x ∈ rest ++ j :: s.inflight := hx
+      have hx' : x ∈ rest ++ tickRun j s.running := hx
       rw [htl]
-      have : x ∈ rest ∨ x = j ∨ x ∈ s.inflight := by simpa using hx'
-      rcases this with h | h | h <;> simp [h]
+      rcases tickRun_cases j s.running with ⟨_, er⟩ | ⟨_, er⟩ <;> rw [er] at hx'
+      · have : x ∈ rest ∨ x = j ∨ x ∈ s.running := by simpa using hx'
+        rcases this with h | h | h <;> simp [h]
+      · have : x ∈ rest ∨ x ∈ s.running := by simpa using hx'
+        rcases this with h | h <;> simp [h]
   | done k =>
     simp only [step] at hx
-    have hsub : (s.inflight.eraseP (fun j => j.serial == k)).Sublist s.inflight := eraseP_sublist
     rcases done_cases s k with ⟨e, _⟩ | ⟨j, hjmem, hjser, ⟨_, e⟩ | ⟨hp, e⟩⟩
     · left; rw [e] at hx; exact hx
-    · left; rw [e] at hx
-      rcases mem_append.1 hx with h | h
-      · exact mem_append.2 (Or.inl h)
-      · exact mem_append.2 (Or.inr (hsub.subset h))
+    · left; rw [e] at hx; exact hx
     · rw [e] at hx
-      rcases schedule_live_sub _ _ _ hx with h | h
-      · left
-        rcases mem_append.1 h with h | h
-        · exact mem_append.2 (Or.inl h)
-        · exact mem_append.2 (Or.inr (hsub.subset h))
-      · right; right; exact ⟨k, j, rfl, hjmem, hjser, hp, h⟩
+      rcases reschedule_cases { s with inflight := s.inflight.eraseP (fun j => j.serial == k) } j with ⟨e2, _⟩ | ⟨⟨y, hy, hys⟩, e2⟩
+      · left; rw [e2] at hx; exact hx
+      · rw [e2] at hx
+        have hy' : y ∈ s.running := hy
+        have hyj : y = j := hw.run_eq hy' hjmem hys
+        subst hyj
+        have hx' : x ∈ insertJob (schedJob s.clock y) s.tl ++ s.running.eraseP (fun z => z.serial == y.serial) := hx
+        rcases mem_append.1 hx' with h | h
+        · rcases mem_insertJob.1 h with h | h
+          · right; right; exact ⟨k, y, rfl, hy', hjser, hp, h⟩
+          · left; exact mem_append.2 (Or.inl h)
+        · left; exact mem_append.2 (Or.inr ((eraseP_sublist).subset h))
   | suspend => left; exact hx
   | resume => left; simp only [step] at hx; split at hx <;> exact hx
   | pauseBegin => left; exact hx
@@ -83,7 +87,7 @@ theorem step_log_sub (s : Cron) (op : Op) {f : Fire} (hf : f ∈ (step s op).log
     rw [e2] at hf; exact hf
   | rem id => left; exact hf
   | tick =>
-    obtain ⟨_, _, e3, _⟩ := tickArm_fields s
+    obtain ⟨_, _, e3, _⟩ := tickIdle_fields s
     simp only [step] at hf
     rcases tick_cases s with ⟨e, _⟩ | ⟨e, _, _⟩ | ⟨j, rest, _, htl, hr, e⟩
     · left; rw [e] at hf; exact hf
@@ -99,7 +103,7 @@ theorem step_log_sub (s : Cron) (op : Op) {f : Fire} (hf : f ∈ (step s op).log
     · rw [e] at hf; exact hf
     · rw [e] at hf; exact hf
     · rw [e] at hf
-      obtain ⟨_, e2, _⟩ := schedule_fst_fields { s with inflight := s.inflight.eraseP (fun j => j.serial == k) } j false
+      obtain ⟨_, e2, _⟩ := reschedule_fields { s with inflight := s.inflight.eraseP (fun j => j.serial == k) } j
       rw [e2] at hf; exact hf
   | suspend => left; exact hf
   | resume => left; simp only [step] at hf; split at hf <;> exact hf
@@ -114,10 +118,11 @@ theorem step_serial_mono (s : Cron) (op : Op) : s.serial ≤ (step s op).serial 
     rw [e4]; exact Nat.le_succ _
   | tick =>
     obtain ⟨_, _, _, _, e5, _⟩ := tickArm_fields s
+    obtain ⟨_, _, _, _, i5, _⟩ := tickIdle_fields s
     simp only [step]
     rcases tick_cases s with ⟨e, _⟩ | ⟨e, _, _⟩ | ⟨j, rest, _, _, _, e⟩
     · rw [e]; exact Nat.le_refl _
-    · rw [e, e5]; exact Nat.le_refl _
+    · rw [e, i5]; exact Nat.le_refl _
     · rw [e]; show s.serial ≤ (tickArm s).serial; rw [e5]; exact Nat.le_refl _
   | done k =>
     simp only [step]
@@ -125,7 +130,7 @@ theorem step_serial_mono (s : Cron) (op : Op) : s.serial ≤ (step s op).serial 
     · rw [e]; exact Nat.le_refl _
     · rw [e]; exact Nat.le_refl _
     · rw [e]
-      obtain ⟨_, _, _, e4, _⟩ := schedule_fst_fields { s with inflight := s.inflight.eraseP (fun j => j.serial == k) } j false
+      obtain ⟨_, _, _, e4, _⟩ := reschedule_fields { s with inflight := s.inflight.eraseP (fun j => j.serial == k) } j
       rw [e4]; exact Nat.le_refl _
   | resume => simp only [step]; split <;> exact Nat.le_refl _
   | pauseEnd => simp only [step]; split <;> exact Nat.le_refl _
@@ -136,13 +141,13 @@ theorem step_serial_mono (s : Cron) (op : Op) : s.serial ≤ (step s op).serial 
 
 /-! ## a trace invariant: everything with a given mark descends from jobs with that mark -/
 
-/-- `P` holds of every pending/in-flight job and every logged fire selected by `sel` -/
+/-- `P` holds of every live job (pending, or running and due to be re-scheduled) and every logged fire selected by `sel` -/
 structure Track (sel : Nat → Nat → Bool) (P : Nat → Nat → Nat → Nat → Prop) (oldlog : List Fire) (s : Cron) : Prop where
-  jobs : ∀ x ∈ s.tl ++ s.inflight, sel x.id x.serial = true → P x.id x.serial x.period x.next
+  jobs : ∀ x ∈ s.tl ++ s.running, sel x.id x.serial = true → P x.id x.serial x.period x.next
   fires : ∀ f ∈ s.log, sel f.id f.serial = true → f ∈ oldlog ∨ P f.id f.serial f.period f.due
 
 /-- `Track` is kept by a step if jobs created by `add` satisfy `P` and re-scheduling keeps `P` -/
-theorem Track.step {sel P oldlog} {s : Cron} (h : Track sel P oldlog s) (op : Op)
+theorem Track.step {sel P oldlog} {s : Cron} (hw : WF s) (h : Track sel P oldlog s) (op : Op)
     (hadd : ∀ id due p, op = .add id due p → sel id s.serial = true →
       P id s.serial p (schedJob s.clock ⟨id, due, p, s.serial⟩).next)
     (hdone : ∀ j : Job, j.period ≠ 0 → sel j.id j.serial = true → P j.id j.serial j.period j.next →
@@ -150,7 +155,7 @@ theorem Track.step {sel P oldlog} {s : Cron} (h : Track sel P oldlog s) (op : Op
     Track sel P oldlog (step s op) := by
   constructor
   · intro x hx hs
-    rcases step_live_sub s op hx with h1 | ⟨id, due, p, rfl, rfl⟩ | ⟨k, j, rfl, hj, _, hp, rfl⟩
+    rcases step_live_sub hw op hx with h1 | ⟨id, due, p, rfl, rfl⟩ | ⟨k, j, rfl, hj, _, hp, rfl⟩
     · exact h.jobs x h1 hs
     · obtain ⟨i1, i2, i3⟩ := schedJob_id s.clock ⟨id, due, p, s.serial⟩
       rw [i1, i2] at hs; rw [i1, i2, i3]
@@ -169,41 +174,68 @@ theorem Track.step {sel P oldlog} {s : Cron} (h : Track sel P oldlog s) (op : Op
 
 /-! ## removed pending jobs -/
 
-theorem removed_aux (n0 id : Nat) (old : List Fire) (post : List Op) : ∀ s : Cron, n0 ≤ s.serial →
+theorem removed_aux (n0 id : Nat) (old : List Fire) (post : List Op) : ∀ s : Cron, WF s → n0 ≤ s.serial →
     Track (fun i _ => i == id) (fun _ k _ _ => n0 ≤ k) old s →
     Track (fun i _ => i == id) (fun _ k _ _ => n0 ≤ k) old (run s post) := by
   induction post with
-  | nil => intro s _ h; exact h
+  | nil => intro s _ _ h; exact h
   | cons op post ih =>
-    intro s hn h
-    refine ih (step s op) (Nat.le_trans hn (step_serial_mono _ _)) (h.step op ?_ ?_)
+    intro s hw hn h
+    refine ih (step s op) (WF_step hw op) (Nat.le_trans hn (step_serial_mono _ _)) (h.step hw op ?_ ?_)
     · intro _ _ _ _ _; exact hn
     · intro _ _ _ hP; exact hP
 
-/-- after `Rem id` in a state where no job with that id is in flight, every job with that id (pending, in flight or fired later)
-was created by a later `Add` -/
-theorem removed_track {s : Cron} (h : WF s) (id : Nat) (hnf : ∀ j ∈ s.inflight, j.id ≠ id) (post : List Op) :
+/-- after `Rem id` — whether the job was pending or its `Fn` was running — every live job with that id, and every later fire
+under that id, was created by a later `Add` -/
+theorem removed_track {s : Cron} (h : WF s) (id : Nat) (post : List Op) :
     Track (fun i _ => i == id) (fun _ k _ _ => s.serial ≤ k) s.log (run (step s (.rem id)) post) := by
   apply removed_aux
+  · exact WF_step h _
   · exact Nat.le_refl _
   · constructor
     · intro x hx hs
       have hxid : x.id = id := by simpa using hs
       rcases mem_append.1 hx with hx | hx
       · exact absurd hxid (remJob_no_id h.nodupId x hx)
-      · exact absurd hxid (hnf x hx)
+      · exact absurd hxid (cancelRunning_no_id h.nodupIdRun x hx)
     · intro f hf _; left; exact hf
+
+/-- the same after an `Add id …` (a replacement when the id exists): every live job with that id, and every later fire under
+that id, belongs to this `Add` or a later one — the replaced job object never fires again, even if its `Fn` was running -/
+theorem replaced_track {s : Cron} (h : WF s) (id due p : Nat) (post : List Op) :
+    Track (fun i _ => i == id) (fun _ k _ _ => s.serial ≤ k) s.log (run (step s (.add id due p)) post) := by
+  apply removed_aux
+  · exact WF_step h _
+  · exact step_serial_mono s _
+  · constructor
+    · intro x hx hs
+      have hxid : x.id = id := by simpa using hs
+      simp only [step] at hx
+      rw [schedule_running] at hx
+      have hnew : (schedJob s.clock ⟨id, due, p, s.serial⟩).serial = s.serial := (schedJob_id _ _).2.1
+      show s.serial ≤ x.serial
+      rcases mem_append.1 hx with hx | hx
+      · rcases schedule_tl { s with serial := s.serial + 1 } ⟨id, due, p, s.serial⟩ true with e | e <;> rw [e] at hx
+        · exact absurd hxid (remJob_no_id h.nodupId x hx)
+        · rcases mem_insertJob.1 hx with hx | hx
+          · rw [hx]; exact Nat.le_of_eq hnew.symm
+          · exact absurd hxid (remJob_no_id h.nodupId x hx)
+      · exact absurd hxid (cancelRunning_no_id h.nodupIdRun x hx)
+    · intro f hf _; left
+      simp only [step] at hf
+      obtain ⟨_, e2, _⟩ := schedule_fst_fields { s with serial := s.serial + 1 } ⟨id, due, p, s.serial⟩ true
+      rw [e2] at hf; exact hf
 
 /-! ## a one-shot job keeps its due time -/
 
-theorem oneshot_aux (k id due : Nat) (post : List Op) : ∀ s : Cron, k < s.serial →
+theorem oneshot_aux (k id due : Nat) (post : List Op) : ∀ s : Cron, WF s → k < s.serial →
     Track (fun _ k' => k' == k) (fun i _ p n => i = id ∧ p = 0 ∧ n = due) [] s →
     Track (fun _ k' => k' == k) (fun i _ p n => i = id ∧ p = 0 ∧ n = due) [] (run s post) := by
   induction post with
-  | nil => intro s _ h; exact h
+  | nil => intro s _ _ h; exact h
   | cons op post ih =>
-    intro s hn h
-    refine ih (step s op) (Nat.lt_of_lt_of_le hn (step_serial_mono _ _)) (h.step op ?_ ?_)
+    intro s hw hn h
+    refine ih (step s op) (WF_step hw op) (Nat.lt_of_lt_of_le hn (step_serial_mono _ _)) (h.step hw op ?_ ?_)
     · intro _ _ _ _ hs
       have : s.serial = k := by simpa using hs
       omega
@@ -212,14 +244,19 @@ theorem oneshot_aux (k id due : Nat) (post : List Op) : ∀ s : Cron, k < s.seri
 theorem oneshot_track {s : Cron} (h : WF s) (id due : Nat) (post : List Op) :
     Track (fun _ k => k == s.serial) (fun i _ p n => i = id ∧ p = 0 ∧ n = due) [] (run (step s (.add id due 0)) post) := by
   apply oneshot_aux
+  · exact WF_step h _
   · simp only [step]
     obtain ⟨_, _, _, e4, _⟩ := schedule_fst_fields { s with serial := s.serial + 1 } ⟨id, due, 0, s.serial⟩ true
     rw [e4]; exact Nat.lt_succ_self _
   · constructor
     · intro x hx hs
       have hxs : x.serial = s.serial := by simpa using hs
-      rcases step_live_sub s _ hx with h1 | ⟨id', due', p', he, rfl⟩ | ⟨k, j, he, _⟩
-      · exact absurd hxs (Nat.ne_of_lt (h.serLt x h1))
+      rcases step_live_sub h _ hx with h1 | ⟨id', due', p', he, rfl⟩ | ⟨k, j, he, _⟩
+      · have h1' : x ∈ s.tl ++ s.inflight := by
+          rcases mem_append.1 h1 with h1 | h1
+          · exact mem_append.2 (Or.inl h1)
+          · exact mem_append.2 (Or.inr (h.runSub.subset h1))
+        exact absurd hxs (Nat.ne_of_lt (h.serLt x h1'))
       · cases he; simp [schedJob]
       · cases he
     · intro f hf hs
@@ -287,5 +324,57 @@ theorem ticks_fire {s : Cron} (h : WF s) (hp : s.paused = false) (pre : List Job
     simp only [run, length_cons, replicate_succ, foldl_cons, step] at this ⊢
     rw [d] at this
     exact this
+
+/-! ## what the return of an `Fn` and the control commands leave alone -/
+
+/-- the return of an `Fn`, the passage of time and the control commands never take anything off the timeline -/
+theorem step_tl_keep (s : Cron) (op : Op) (hop : (∃ k, op = .done k) ∨ op.isControl = true) {x : Job} (hx : x ∈ s.tl) :
+    x ∈ (step s op).tl := by
+  cases op with
+  | done k =>
+    simp only [step]
+    rcases done_cases s k with ⟨e, _⟩ | ⟨j, _, _, ⟨_, e⟩ | ⟨_, e⟩⟩
+    · rw [e]; exact hx
+    · rw [e]; exact hx
+    · rw [e]
+      rcases reschedule_cases { s with inflight := s.inflight.eraseP (fun j => j.serial == k) } j with ⟨e2, _⟩ | ⟨_, e2⟩
+      · rw [e2]; exact hx
+      · rw [e2]; exact mem_insertJob.2 (Or.inr hx)
+  | advance d => exact hx
+  | suspend => exact hx
+  | pauseBegin => exact hx
+  | resume => simp only [step]; split <;> exact hx
+  | pauseEnd => simp only [step]; split <;> exact hx
+  | add _ _ _ => rcases hop with ⟨_, h⟩ | h <;> cases h
+  | rem _ => rcases hop with ⟨_, h⟩ | h <;> cases h
+  | tick => rcases hop with ⟨_, h⟩ | h <;> cases h
+
+theorem run_tl_keep (s : Cron) (ops : List Op) (hops : ∀ o ∈ ops, (∃ k, o = .done k) ∨ o.isControl = true) {x : Job} (hx : x ∈ s.tl) :
+    x ∈ (run s ops).tl := by
+  induction ops generalizing s with
+  | nil => exact hx
+  | cons op ops ih =>
+    exact ih (step s op) (fun o ho => hops o (by simp [ho])) (step_tl_keep s op (hops op (by simp)) hx)
+
+/-- the return of the `Fn` of a job that is no longer in `c.running` (removed or replaced meanwhile) changes nothing but the
+ghost list of running `Fn`s -/
+theorem done_cancelled {s : Cron} (hw : WF s) {j : Job} (hj : j ∈ s.inflight) (hp : j.period ≠ 0) (hnr : j ∉ s.running) :
+    done s j.serial = { s with inflight := s.inflight.eraseP (fun x => x.serial == j.serial) } := by
+  rcases done_cases s j.serial with ⟨_, hno⟩ | ⟨j2, hj2, hser, hc⟩
+  · exact absurd rfl (hno j hj)
+  · have hj2eq : j2 = j := by
+      by_cases e2 : j2 = j
+      · exact e2
+      · exact absurd hser (pairwise_mem_ne (fun a b hab => fun e => hab e.symm) hw.nodupSerInfl j2 hj2 j hj e2)
+    subst hj2eq
+    rcases hc with ⟨h0, _⟩ | ⟨_, e⟩
+    · exact absurd h0 hp
+    · rw [e]
+      rcases reschedule_cases { s with inflight := s.inflight.eraseP (fun x => x.serial == j2.serial) } j2 with ⟨e2, _⟩ | ⟨⟨y, hy, hys⟩, _⟩
+      · exact e2
+      · have hy' : y ∈ s.running := hy
+        have := hw.run_eq hy' hj hys
+        subst this
+        exact absurd hy' hnr
 
 end CronM
